@@ -211,6 +211,9 @@ func (cx *Ctx) c18Provenance(r *Report, set hev, where string, oracle bool) {
 		if t == nil {
 			return
 		}
+		if t.Op == "call" && (strings.HasPrefix(t.Name, "out:codec.") || strings.HasPrefix(t.Name, "random/keeper.Keeper.GetOracleRandRequest")) {
+			return // the stored request record itself: its fields (consumer) are the requester's data
+		}
 		if t.Op == "call" {
 			n := t.Name
 			allowed := n == "sdk.Context.BlockHeader" || strings.HasPrefix(n, "random/types.") || strings.HasPrefix(n, "random/keeper.Keeper.GetOracleRandRequest") || strings.HasPrefix(n, "big.") || strings.HasPrefix(n, "time.Time.Unix") ||
